@@ -9,8 +9,12 @@ PROP = dict(
     claim="every weak order of n <= 6 elements and every permutation of n <= 8 is sorted in both directions, tested with issorted and "
           "median; every ternary stream up to the stated length and every permutation of 1..7 is run through MedianFilter for every "
           "listed order / initial value in 3 framings; every pair of permutations up to the stated length goes through corr (all three "
-          "types, both argument orders). The functions are comparison based, so the weak orders of a length exhaust their behaviours at "
-          "that length. Exhaustive within the bound, silent outside it (longer inputs only through the listed structured letters).",
+          "types, both argument orders). A comparison-based implementation depends only on the weak order of its input, so the weak orders "
+          "of a length exhaust its behaviours at that length; because the implementation need not be comparison based (absolute tolerances, "
+          "narrowing casts), every weak order / stream / permutation is additionally run through 5 monotone value maps (1e-18 steps, "
+          "1e-300 scale, adjacent doubles below 0.5 and above 1, 1e300 scale) and compared bit-exactly. corr is also run on long tie-free "
+          "samples (n up to 20000, thorough 100000) around the sizes where 32-bit products of n overflow. Exhaustive within the bound, "
+          "silent outside it (other value scales and longer inputs only through the listed letters).",
     note="trusts the harness's brute-force median and the long-double correlation definitions; Pearson is compared with a "
          "condition-aware tolerance 16*n*eps*kappa (kappa = n*sqrt(Sxx*Syy)/sqrt(Vx*Vy) of the moment formula)",
     rule="a case is one input (array / stream / block of all y-permutations for one x-permutation and one coefficient) passed to the real "
@@ -22,10 +26,14 @@ PROP = dict(
               "{1,2,9,10,1000,2000}; MedianFilter orders 3..12 x init {0,-1,5} x every sequence over {0,1,2}^k k<=6 and every permutation "
               "of 1..7, 3 framings each; long streams 2000 samples (8-level LCG) orders 3..12,16,33,64 x 2 letters x 4 framings; "
               "medfilt n 3..9 x every sequence over {-1,0,2}^L L<=6 + 7 letters x L<=12; corr: all pairs of permutations n<=5 and "
-              "identity x all 5040 permutations n=7 (both sides), Pearson with 9 letter pairs (linear/cubic/exponential), Spearman, Kendall",
+              "identity x all 5040 permutations n=7 (both sides), Pearson with 9 letter pairs (linear/cubic/exponential), Spearman, Kendall; "
+              "every sort / median / MedianFilter / medfilt case above x 6 value maps {plain, r*1e-18, 1e-300*(r+1), 0.25+r*2^-54, "
+              "-(1+r*eps), r*1e300/8}; corr.large: n in {100,1000,1290,1291,1625,2000,2048,5000,20000} x {increasing linear, decreasing "
+              "linear, increasing cubic, decreasing exponential, 2 independent LCG permutation pairs} x Pearson/Spearman/Kendall",
         thorough="as quick with MedianFilter orders + {16,33,64}, ternary streams k<=8, long streams 10^4 samples for every order 3..64, "
                  "medfilt sequences L<=7, corr all pairs of permutations n<=6 (518k pairs per coefficient and letter pair) and all 25.4M pairs "
-                 "of permutations of length 7 for Pearson (linear x exponential letters), Spearman and Kendall"),
+                 "of permutations of length 7 for Pearson (linear x exponential letters), Spearman and Kendall; corr.large also n=100000 "
+                 "(Pearson, Spearman)"),
     deadline=dict(quick=150, thorough=1500),
     assumptions=COMMON_ASSUME + [
         "median of an even window is the mean of the two middle elements (MATLAB/NumPy convention; the statement says 'true median')",
@@ -33,5 +41,8 @@ PROP = dict(
         "range check 'to rounding': |corr| <= 1 + max(4 eps, value tolerance) (Pearson's moment formula returns 1 + 8.4e-15 for two "
         "collinear points, observed and reported, not judged a violation); symmetry tolerance 1e-12 as in the design; tie-free data only for corr",
         "sort stability is not part of the statement and not checked",
+        "corr.large: references are O(n) long-double moments (Pearson), the exact integer closed form on O(n log n) ranks (Spearman) and a "
+        "merge-sort inversion count (Kendall); tolerance 16*n*eps*kappa for the moment formulas, 8 eps for Kendall; Kendall is not run "
+        "beyond n = 20000 (O(n^2) pair loop; its int pair counters exceed INT_MAX beyond n = 65536, outside the stated lengths)",
     ],
 )
